@@ -335,6 +335,25 @@ let exec toks =
             String.concat " "
               [ s_cmp c; s_cmp c; s_b (hr_eqb x y); s_b (not (hr_eqb x y)); s_b (hr_lt x y); s_b (hr_le x y); s_b (hr_gt x y); s_b (hr_ge x y) ]
       | _ -> failwith "hrcmpp")
+  | "hrkey" -> (
+      match nums () with
+      | [ a; b ] ->
+          let inval v = v = N0 || Int64.compare (int64_of_n v) 7462L > 0 in
+          let x = hr_from a and y = hr_from b in
+          let c = hr_cmp x y in
+          let opp = function Eq -> Eq | Lt -> Gt | Gt -> Lt in
+          let cmpn p q = let d = Int64.compare (int64_of_n p) (int64_of_n q) in if d < 0 then Lt else if d > 0 then Gt else Eq in
+          let spec_ok =
+            match (inval a, inval b) with
+            | false, false -> c = cmpn b a
+            | true, false -> c = Lt
+            | false, true -> c = Gt
+            | true, true -> (c = Eq) = (a = b) && hr_cmp y x = opp c
+          in
+          let eq_ok = hr_eqb x y = (a = b) && (c = Eq) = hr_eqb x y in
+          let ops_ok = hr_lt x y = (c = Lt) && hr_le x y = (c <> Gt) && hr_gt x y = (c = Gt) && hr_ge x y = (c <> Lt) in
+          String.concat " " [ s_b spec_ok; s_b eq_ok; s_b ops_ok ]
+      | _ -> failwith "hrkey")
   | "hrtri" -> (
       match nums () with
       | [ a; b; d ] ->
